@@ -34,7 +34,7 @@ CHECKS = {
    note="bounded domain (3 ids, a in {NULL,1,2}, b in {NULL,0,1,5}); quick replays a stratified seeded sample of the explored transitions plus random walks, thorough replays depth-4 transitions; renderer/normaliser in lib/relational.py trusted; open findings listed in known_findings.json by spec-defined signature"),
  "C05": dict(cat="model_checking", ref="DESIGN.md 3.9, 6 (C05)",
    tech="TLA+ reference spec Relational.tla explored by TLC (per-transition emission, VIEW hides history; -simulate random walks); every behaviour rendered to SQL and replayed on TurDB, results and full observation compared with the model",
-   text="every INSERT (1 and 2 rows) / UPDATE / DELETE / TRUNCATE transition TLC explores from every reachable table state (with tombstone and reopen history classes in the VIEW) is executed on TurDB: affected-row count, resulting rows and COUNT(*) must equal the model's; the same behaviours with the last statement issued ... RETURNING id, a, b must return the model's `ret` rows (inserted rows, new images, deleted rows); INSERT .. ON CONFLICT DO NOTHING / (id|a) DO UPDATE SET c = v (USpec: every variant over collisions on the primary key, the UNIQUE key, both, none) is judged the same way; a second reference, WideTable.tla, drives statements on runs of ids over tables of 150-400 rows (leaf and interior splits) with affected-row counts and the scan compared with the model after every step",
+   text="every INSERT (1 and 2 rows) / UPDATE / DELETE / TRUNCATE transition TLC explores from every reachable table state (with tombstone and reopen history classes in the VIEW) is executed on TurDB: affected-row count, resulting rows and COUNT(*) must equal the model's; the same behaviours with the last statement issued ... RETURNING id, a, b must return the model's `ret` rows (inserted rows, new images, deleted rows); INSERT .. ON CONFLICT DO NOTHING / (id|a) DO UPDATE SET c = v (USpec: every variant over collisions on the primary key, the UNIQUE key, both, none) is judged the same way; a second reference, WideTable.tla, drives statements on runs of ids over tables of 150-400 rows (leaf and interior splits), including UPDATEs that move the 200-byte pad of runs of rows to a 3000-byte out-of-line (TOAST) value and back, with affected-row counts and the scan compared with the model after every step",
    note="bounded domain (3 ids, a in {NULL,1,2}, b in {NULL,0,1,5}); quick replays a stratified seeded sample of the explored transitions plus random walks, thorough replays depth-4 transitions; renderer/normaliser in lib/relational.py trusted; open findings listed in known_findings.json by spec-defined signature"),
  "C06": dict(cat="model_checking", ref="DESIGN.md 3.9, 6 (C06)",
    tech="TLA+ reference spec Relational.tla explored by TLC (per-transition emission, VIEW hides history; -simulate random walks); every behaviour rendered to SQL and replayed on TurDB, results and full observation compared with the model",
